@@ -58,6 +58,10 @@ SPEC = {
     'C19': ('rv.meta', 'Date patterns match exactly the selected numeric formats',
             'each of the 48 formats alone, all together, random subsets; every part value 00..99/0..9/bad lengths, both and mixed '
             'separators, both is_extensible, against a direct parser of the format strings; invalid formats', 30),
+    'C20': ('rv.hist', 'Pregex objects are immutable values; results do not depend on history',
+            'every DSL / class program built from fresh leaves and again from a pool of shared sub-objects that were compiled, '
+            'matched with, used as operands and aliased; operand snapshots around every call and at the end; the same program '
+            'list built under several PYTHONHASHSEEDs in separate processes with semantic fingerprints compared offline', 1000),
 }
 
 TIERS = {
